@@ -912,6 +912,13 @@ func gateScenario(c *core.Ctx, stream string, idx int) {
 func Run(c *core.Ctx) {
 	c.Note("rule", "noise stream: one random scenario per index = (2..16 workers, 1..16 host goroutines x N events with fresh ids fired through AddEventAndWait on their own root monitors, optional cascade fanning out 64 children through addEvent, failure probability in {0,1/8,1/2,7/8,1}, both settings of fail-on-first-error, kind bias, seeded perturbation at sink.begin/sink.beforereturn); gate stream: all 96 combinations of (gated sink, same/other partner sink, hold point, until point, X fails, Y fails) holding X's invocation until Y's passed its point. Every invocation is one evaluation; judged per unique event id: echoed locals/function results/event fields and the (type, detail, data) reported for exactly its (event, sink). Non-trivial = a noise scenario and sink for which the hook counters saw a second invocation of the same sink begin while another was inside (distinct per scenario and sink; race-build scenarios without hooks count once when they mix failing and succeeding invocations), or a feasible gate pair with a distinct interleaving signature. Excluded by generation: equal priorities, self-suppression, rules with several patterns, events sharing a name across kinds, global writes (C12), what follows a failing sink under fail-on-first-error (only invocations that began are judged).")
 	setup()
+	if c.Batch == 0 {
+		src := program(3)
+		if i := strings.Index(src, "sink sall"); i > 0 {
+			src = src[:i] + "... (sall, sb, sfan have the same body; sfan first calls addEvent(event.state.nI, event.state.kI, event.state.sI) for I = 0..63)"
+		}
+		c.Sample("program", src)
+	}
 	nNoise := c.Pick(48, 1600)
 	nGate := c.Pick(nGateCfg, 30*nGateCfg)
 	if c.Race {
